@@ -77,17 +77,25 @@ def files():
     return [fb.f]
 
 
-def metadata(transport: int, selective: bool, k0: bool, k1: bool, k2: bool, kb: bool, kb2: bool) -> bool:
+NAMINGS = [("", "google.example.md_v1"),
+           (",python-gapic-namespace=acme.cloud", "acme.cloud.md_v1"),
+           (",python-gapic-name=bookshelf", "google.example.bookshelf_v1"),
+           (",python-gapic-namespace=acme.cloud,python-gapic-name=bookshelf", "acme.cloud.bookshelf_v1")]
+
+
+def metadata(transport: int, selective: bool, k0: bool, k1: bool, k2: bool, kb: bool, kb2: bool, naming: int = 0) -> bool:
     """
     pre: 0 <= transport <= 2
+    pre: 0 <= naming <= 3
     pre: selective or (k0 and k1 and k2 and kb and kb2)
     pre: k0 or k1 or k2 or kb or kb2
     post: _
     """
     transport = conc(transport, 0, 2)
+    naming = conc(naming, 0, 3)
     selective, keep = bool(selective), [bool(k0), bool(k1), bool(k2), bool(kb), bool(kb2)]
     with untraced():
-        opts = Options.build("transport=" + TRANSPORTS[transport])
+        opts = Options.build("transport=" + TRANSPORTS[transport] + NAMINGS[naming][0])
         listed = [f"{PKG}.Alpha.{m}" for m, k in zip(RPCS_ALPHA, keep) if k] + ([f"{PKG}.Beta.List"] if keep[3] else []) + \
             ([f"{PKG}.Beta.GetThing"] if keep[4] else [])
         if selective:
@@ -116,7 +124,7 @@ def metadata(transport: int, selective: bool, k0: bool, k1: bool, k2: bool, kb: 
         exp_services["Gamma"] = {"clients": {kind: {"libraryClient": "Gamma" + ("AsyncClient" if kind == "grpc-async" else "Client")}
                                              for kind in kinds}}
         exp = {"schema": "1.0", "comment": got.get("comment"), "language": "python", "protoPackage": PKG,
-               "libraryPackage": "google.example.md_v1", "services": exp_services}
+               "libraryPackage": NAMINGS[naming][1], "services": exp_services}
         return got == exp
 
 
